@@ -147,7 +147,7 @@ CHECKS = {
              "schedules (readers returning at most 256/100/7 bytes) and every output is judged by TLC against the reference meaning.",
         design_ref="DESIGN.md 6 (C20)",
         note="Trusted: TLC, Json module, the in-package harness (feeds bytes, copies ReadLine results). Alphabet {1-2 letters, "
-             "space, ;, ', \", optionally backslash} + Enter(13); line breaks inside literals, backquotes and comments are outside "
+             "space, ;, ', \", optionally backslash} + Enter(13); a line break typed inside a literal is entered as a blank (Console!Entered); backquotes and comments are outside "
              "the property and not modelled; bounded length.",
         technique="TLA+ spec (Console.tla) model-checked with TLC; every complete behaviour replayed on Terminal.ReadLine; oracle evaluated by TLC on real outputs (ConsoleJudge.tla)",
     ),
